@@ -1391,6 +1391,57 @@ def constant_sample_indices(fi):
     return out
 
 
+def _is_single_pass_iterator(idx, fi, value):
+    """Is `value` an expression that yields a one-shot iterator: a call of a generator function of the package, a generator
+    expression, or iter()/zip()/map()/enumerate()/filter()/reversed() of something?"""
+    if isinstance(value, ast.GeneratorExp):
+        return 'a generator expression'
+    if isinstance(value, ast.Call):
+        if isinstance(value.func, ast.Name) and value.func.id in ('iter', 'zip', 'map', 'enumerate', 'filter', 'reversed'):
+            return '%s(...)' % value.func.id
+        try:
+            targets, how = idx.resolve_call(fi, value)
+        except Exception:
+            targets = []
+        targets = [t for t in targets if not isinstance(t, tuple)]
+        if targets and all(any(isinstance(n, (ast.Yield, ast.YieldFrom)) for n in walk_own(t.node)) for t in targets):
+            return 'the generator %s(...)' % targets[0].qualname
+    return None
+
+
+def _iterator_consumed_before_loop(r, idx, fi, name, loop):
+    """The sampling loop runs over a single-pass iterator bound once to a name; a `next(<that name>)` that can execute before
+    the loop removes the first sample from the comparison.  Returns True iff this (definite) defect was reported."""
+    seq, _ = fl.unwrap_seq(loop.iter)
+    if not isinstance(seq, ast.Name):
+        return False
+    defs = lib.assigned_value(fi.node, seq.id)
+    if len(defs) != 1:
+        return False
+    what = _is_single_pass_iterator(idx, fi, defs[0])
+    if what is None:
+        return False
+    cfg = cfg_of(fi.node)
+    head = fl.loop_head(cfg, loop)
+    peeks = [c for c in walk_own(fi.node) if isinstance(c, ast.Call) and isinstance(c.func, ast.Name) and c.func.id == 'next'
+             and c.args and fl.name_of(c.args[0]) == seq.id and not any(a is loop for a in ancestors(c))]
+    early = [c for c in peeks if cfg.reaches(fl.nodes_for(cfg, c), [head], after=True)]
+    if not early:
+        return False
+    c = early[0]
+    guards = fl.reach_condition(enclosing_stmt(c), fi.node)
+    gen_q = what[len('the generator '):-len('(...)')] if what.startswith('the generator ') else None
+    construct = ('%s: iterated by the sampling loop of %s' % (gen_q, name)) if gen_q and gen_q in (idx.unreviewed or []) \
+        else name + ': sample count'     # the finding is about the (new) generator itself: name it as the construct
+    what = what.replace(gen_q, gen_q.rsplit('.', 1)[-1]) if gen_q else what
+    r.violation(construct, '`%s` is bound once to %s, a single-pass iterator, and `%s` can run before the loop that '
+                'enumerates it%s: the first sample is consumed there and never compared -- only samples-1 samples are graded, and a '
+                'single-sample grader (NumericalGrader) compares nothing at all' % (
+                    seq.id, what, short(c), (' (when %s)' % ' and '.join(unparse(g) for g in guards)) if guards else ''),
+                lib.loc(fi, c), expected='look at var_samples[0] (or restart the iterator) instead of consuming an element')
+    return True
+
+
 def d4_samples(ctx, idx):
     r = ctx.rule('D4.SAMPLES', "author and student are evaluated in the same iteration of one loop over range(config['samples']) "
                  'on the same scope objects, the i-th sample loaded first, only deletions in between', floor=21)
@@ -1418,6 +1469,8 @@ def d4_samples(ctx, idx):
             r.ok(name + ': loop', 'author and student evaluated in the same loop iteration', lib.loc(fi, loop))
             # iteration count
             if not (isinstance(loop, ast.For) and isinstance(loop.target, ast.Name)):
+                if isinstance(loop, ast.For) and _iterator_consumed_before_loop(r, idx, fi, name, loop):
+                    continue
                 r.undecided(name + ': sample count', 'loop header not recognised', lib.loc(fi, loop))
                 continue
             lv = loop.target.id
@@ -2310,6 +2363,7 @@ MUTANTS = [
     Mutant('percentage-rounded', VF, "                return \"{percent}%\".format(percent=percent)", "                return \"%.3g%%\" % percent", 'D5'),
     Mutant('seeded-agreed-record-keeps-ok-true', MH, "        if answer is None:\n            answer = {'ok': True, 'grade_decimal': 1, 'msg': ''}\n        \n        # answer can contain extra keys, so prune them\n        pruned_answer = {key: answer[key] for key in ['ok', 'grade_decimal', 'msg']}\n",
            "        pruned_answer = dict(ok=True, grade_decimal=1, msg='')\n        if answer is not None:\n            pruned_answer.update(grade_decimal=answer['grade_decimal'], msg=answer['msg'])\n", 'D3'),
+    Mutant('seeded-sample-generator-peeked-with-next', FG, '    def gen_evaluations(self, comparer_params, student_input, sibling_formulas,\n                        var_samples, func_samples):\n        """\n        Evaluate the comparer parameters and student inputs for the given samples.\n\n        Returns:\n            A tuple (list, list, set). The first two lists are comparer_params_evals\n            and student_evals. These have length equal to number of samples specified\n            in config. The set is a record of mathematical functions used in the\n            student\'s input.\n        """\n        funclist = self.functions.copy()\n        varlist = {}\n\n        comparer_params_evals = []\n        student_evals = []\n\n        # Create a list of instructor and sibling variables to remove from student evaluation\n        sibling_vars = [key for key in sibling_formulas]\n        var_blacklist = []\n        for var in self.config[\'instructor_vars\']:\n            if var in var_samples[0]:\n                var_blacklist.append(var)\n        var_blacklist += sibling_vars\n\n        for i in range(self.config[\'samples\']):\n            # Update the functions and variables listings with this sample\n            funclist.update(func_samples[i])\n            varlist.update(var_samples[i])\n\n            def scoped_eval(expression,\n                            variables=varlist,\n                            functions=funclist,\n                            suffixes=self.suffixes,\n                            max_array_dim=self.config[\'max_array_dim\']):\n                return evaluator(expression, variables, functions, suffixes, max_array_dim,\n                                 allow_inf=self.config[\'allow_inf\'])\n\n            # Compute expressions\n            comparer_params_eval = self.eval_and_validate_comparer_params(scoped_eval, comparer_params)\n            comparer_params_evals.append(comparer_params_eval)\n\n            # Before performing student evaluation, scrub the sibling and instructor\n            # variables so that students can\'t use them\n            for key in var_blacklist:\n                del varlist[key]\n\n            student_eval, meta = scoped_eval(student_input)\n            student_evals.append(student_eval)\n\n            if self.config[\'debug\']:\n                # Put the siblings and instructor variables back in for the debug output\n                varlist.update(var_samples[i])\n                self.log_eval_info(i, varlist, funclist,\n                                   comparer_params_eval=comparer_params_eval,\n                                   student_eval=student_eval)\n\n        return comparer_params_evals, student_evals, meta.functions_used\n\n', '    def sample_scopes(self, var_samples, func_samples):\n        """Generate the (variables, functions) scope of each sample in turn"""\n        funclist = self.functions.copy()\n        varlist = {}\n        for variables, functions in zip(var_samples, func_samples):\n            # Update the functions and variables listings with this sample\n            funclist.update(functions)\n            varlist.update(variables)\n            yield varlist, funclist\n\n    def student_blacklist(self, scopes, sibling_formulas):\n        """\n        Create a list of instructor and sibling variables to remove from student\n        evaluation. Instructor variables that are not actually sampled are ignored.\n        """\n        blacklist = list(sibling_formulas)\n        instructor_vars = self.config[\'instructor_vars\']\n        if instructor_vars:\n            # Every sample has the same names, so it is enough to look at one scope\n            sampled, _ = next(scopes)\n            blacklist += [var for var in instructor_vars if var in sampled]\n        return blacklist\n\n    def evaluate_sample(self, comparer_params, student_input, varlist, funclist, var_blacklist):\n        """\n        Evaluate the comparer parameters and the student input in a single scope.\n        Returns both, along with the set of functions used in the student\'s input.\n        """\n        def scoped_eval(expression,\n                        variables=varlist,\n                        functions=funclist,\n                        suffixes=self.suffixes,\n                        max_array_dim=self.config[\'max_array_dim\']):\n            return evaluator(expression, variables, functions, suffixes, max_array_dim,\n                             allow_inf=self.config[\'allow_inf\'])\n\n        # Compute expressions\n        comparer_params_eval = self.eval_and_validate_comparer_params(scoped_eval, comparer_params)\n\n        # Perform the student evaluation without the sibling and instructor\n        # variables, so that students can\'t use them\n        student_vars = {key: varlist[key] for key in varlist if key not in var_blacklist}\n        student_eval, meta = scoped_eval(student_input, variables=student_vars)\n\n        return comparer_params_eval, student_eval, meta.functions_used\n\n    def gen_evaluations(self, comparer_params, student_input, sibling_formulas,\n                        var_samples, func_samples):\n        """\n        Evaluate the comparer parameters and student inputs for the given samples.\n\n        Returns:\n            A tuple (list, list, set). The first two lists are comparer_params_evals\n            and student_evals. These have length equal to number of samples specified\n            in config. The set is a record of mathematical functions used in the\n            student\'s input.\n        """\n        scopes = self.sample_scopes(var_samples, func_samples)\n        var_blacklist = self.student_blacklist(scopes, sibling_formulas)\n\n        comparer_params_evals = []\n        student_evals = []\n        functions_used = set()\n\n        for i, (varlist, funclist) in enumerate(scopes):\n            (comparer_params_eval,\n             student_eval,\n             functions_used) = self.evaluate_sample(comparer_params, student_input,\n                                                    varlist, funclist, var_blacklist)\n            comparer_params_evals.append(comparer_params_eval)\n            student_evals.append(student_eval)\n\n            if self.config[\'debug\']:\n                # The variables listing still holds the siblings and instructor variables\n                self.log_eval_info(i, varlist, funclist,\n                                   comparer_params_eval=comparer_params_eval,\n                                   student_eval=student_eval)\n\n        return comparer_params_evals, student_evals, functions_used\n\n', 'D4'),
     Mutant('credit-added', FG, "            result['grade_decimal'] *= answer['grade_decimal']\n", "            result['grade_decimal'] += answer['grade_decimal']\n", 'D4'),
     Mutant('failable-evals-ignored', FG, "        consolidated = self.consolidate_results(results, answer, self.config['failable_evals'])",
            "        consolidated = self.consolidate_results(results, answer, 0)", 'D4'),
